@@ -287,6 +287,27 @@ pub fn universe(ctx: &Ctx, rng: &mut Rng, target: usize, for_c12: bool) -> Unive
                 }
             }
             Val::Nil => reps.push(OwnedTerm::List(vec![])),
+            // a list spelled as cons cells: the first element in front of the rest (itself a list term, proper or
+            // improper), and every element in a cell of its own; the same value as the flat spelling
+            Val::List { elems, tail } if elems.len() >= 2 && elems.len() <= 6 => {
+                let ets: Option<Vec<OwnedTerm>> = elems.iter().map(|e| term_of(e, rng, Style::User)).collect();
+                let tt = term_of(tail, rng, Style::User);
+                if let (Some(ets), Some(tt)) = (ets, tt) {
+                    let proper = matches!(**tail, Val::Nil);
+                    let rest = |from: usize| -> OwnedTerm {
+                        if proper { OwnedTerm::List(ets[from..].to_vec()) } else { OwnedTerm::ImproperList { elements: ets[from..].to_vec(), tail: Box::new(tt.clone()) } }
+                    };
+                    reps.push(OwnedTerm::ImproperList { elements: vec![ets[0].clone()], tail: Box::new(rest(1)) });
+                    if ets.len() >= 3 {
+                        reps.push(OwnedTerm::ImproperList { elements: ets[..2].to_vec(), tail: Box::new(rest(2)) });
+                    }
+                    let mut cells = if proper { OwnedTerm::List(vec![ets[ets.len() - 1].clone()]) } else { OwnedTerm::ImproperList { elements: vec![ets[ets.len() - 1].clone()], tail: Box::new(tt.clone()) } };
+                    for e in ets[..ets.len() - 1].iter().rev() {
+                        cells = OwnedTerm::ImproperList { elements: vec![e.clone()], tail: Box::new(cells) };
+                    }
+                    reps.push(cells);
+                }
+            }
             Val::Int(i) if !i.is_zero() && i.mag.len() <= 8 => {
                 let t = OwnedTerm::BigInt(erltf::BigInt::new(i.neg, i.mag.clone()));
                 if !reps.iter().any(|r| deep_eq(r, &t)) {
@@ -324,7 +345,7 @@ pub fn universe(ctx: &Ctx, rng: &mut Rng, target: usize, for_c12: bool) -> Unive
 }
 
 pub fn run_c11(ctx: &Ctx) {
-    ctx.rule("universe U = deterministic core (every type rank, numeric neighbours of 2^31/2^53/2^63/2^64/10^20 in every representation, -0.0/0.0, equal-length bignums, binaries vs bit-strings vs strings, nil/List([])/proper/improper lists, funs, identifiers in both forms, compounds of those) + seeded random terms; evaluations = pair comparisons + triple checks; distinct = distinct unordered (variant,variant) leaf-pairs compared");
+    ctx.rule("universe U = deterministic core (every type rank, numeric neighbours of 2^31/2^53/2^63/2^64/10^20 in every representation, -0.0/0.0, equal-length bignums, binaries vs bit-strings vs strings, nil/List([])/proper/improper lists (also spelled as cons cells), funs, identifiers in both forms, compounds of those) + seeded random terms; evaluations = pair comparisons + triple checks; distinct = distinct unordered (variant,variant) leaf-pairs compared");
     ctx.assume("well-formed terms: finite floats, minimal big-integer digits, zero padding bits");
     let mut rng = Rng::derive(ctx.seed, 11, 1);
     let target = ctx.pick(260usize, 900usize);
